@@ -101,4 +101,15 @@ class SeveralPerFile(C07.SeveralPerFile):
         return not world.get('opts', {}).get('noDeps')
 
 
-FAMILIES = [Failures(), SeveralPerFile()]
+def _one_file_two_names():
+    from mc.checks import C08
+
+    class OneFileTwoNames(C08.OneFileTwoNames):
+        """C08's real-directory worlds where an imported name resolves (fuzzy -MIB matching) to a file read before that holds
+        another module: the name is missing, so without ignoreErrors nothing is written."""
+        prefix = 'C09'
+        ignore = False
+    return OneFileTwoNames()
+
+
+FAMILIES = [Failures(), SeveralPerFile(), _one_file_two_names()]
